@@ -66,6 +66,11 @@ func (c *ClusterInfo) snapshotQueues() (map[common_info.QueueID]*queue_info.Queu
 		result[defaultParentQueue.UID] = defaultParentQueue
 
 		for _, queue := range queues {
+			if queue.Name == defaultQueueName {
+				// would replace the synthetic parent and, as its own parent, take every queue with it
+				log.InfraLogger.V(2).Warnf("Queue %s has the name of the default parent queue, ignoring it", queue.Name)
+				continue
+			}
 			if len(queue.Spec.ParentQueue) > 0 {
 				queue.Spec.ParentQueue = defaultQueueName
 				queueInfo := queue_info.NewQueueInfo(queue)
